@@ -318,13 +318,13 @@ def configure_macros(ctx):
 def run(ctx):
     chk = ctx.chk
     chk.rule('P1', 'names[i] and ptrs[i] are the same (presence condition, entry) pair for every i; '
-                   'terminator last and unique; names distinct', floor=49 + 5)
+                   'terminator last and unique; names distinct', floor=40)
     chk.rule('P2', 'entry present => its header is included, its implementation is defined exactly once '
                    'and its translation unit is built', floor=49)
     chk.rule('P3', 'lookup and call use the same index: callByName indexes ptrs with the unmodified '
                    'result of getIdFromName(names, name); the generic scan returns the first matching index',
              floor=8)
-    chk.rule('P4', 'every guard macro of a registry entry is one that configure.ac can define', floor=40)
+    chk.rule('P4', 'every guard macro of a registry entry is one that configure.ac can define', floor=30)
     chk.rule('XV', 'translation validation: arrays predicted from the guard structure equal the arrays '
                    'clang builds under the configuration', floor=3)
     chk.explanation = (
